@@ -66,6 +66,10 @@ def pv(v):
         return None
     if k == "int":
         return int(v["v"])
+    if k == "dict":       # a coerced input-object value: keyed by the PYTHON names of the input fields
+        return {f["key"]: pv(f["val"]) for f in v["fs"]}
+    if k == "list":
+        return [pv(x) for x in v["vs"]]
     return v["v"]
 
 
@@ -167,12 +171,25 @@ def project(s):
         except Exception as e:
             ident.append("%s.%s raises %s" % (owner, what, type(e).__name__))
 
+    def defval(x):
+        """Defaults of input-object type are coerced values keyed by python names (or, for schemas rebuilt from SDL, by the names
+        as written): normalised to the snake spelling of the field's GraphQL name."""
+        v = x.default_value
+        t = unwrap_type(x.type)
+        if isinstance(v, dict) and isinstance(t, InputObjectType):
+            out = {}
+            for k, val in v.items():
+                f = next((f for f in t.fields if f.python_name == k), None) or next((f for f in t.fields if f.name == k), None)
+                out["_".join(words_of(f.name)[0]) if f is not None else k] = val
+            return out
+        return v
+
     def args(owner, lst):
         out = []
         for x in lst:
             chk("%s(%s:)" % (owner, x.name), x.type)
             out.append({"w": nm(x.name), "type": tref(x.type), "hasDef": x.has_default_value,
-                        "def": x.default_value if x.has_default_value else None, "py": x.python_name, "desc": x.description or ""})
+                        "def": defval(x) if x.has_default_value else None, "py": x.python_name, "desc": x.description or ""})
         return out
     for n, t in s.types.items():
         if n.startswith("__") or n in BUILTIN:
